@@ -193,8 +193,9 @@ def threeLinkWalk (ld rd stop i j : Nat) : Nat → Nat → Nat → P X (Nat × N
         threeLinkWalk ld rd stop i j f ls' rs'
       else pure (ls, rs)
 
-/-- `three_link`.  When the left walk closes (`lside == ld`) the right side is **not** examined:
-    a closed left face is accepted against a longer or open right face. -/
+/-- `three_link` (after the repair of D1/D1b in /repo): when the left walk closes
+    (`lside == ld`) the right walk must close at the same step (`rside == rd`); when the left
+    backward walk of an open face ends, the right one must have ended too. -/
 def threeLink3 (n ld rd : Nat) : P X Unit := do
   iLinkCore 3 ld rd
   let ls0 ← rB 1 ld
@@ -204,8 +205,10 @@ def threeLink3 (n ld rd : Nat) : P X Unit := do
     if rs ≠ 0 then abort (errAsym ld rd) else
     let ls1 ← rB 0 ld
     let rs1 ← rB 1 rd
-    let _ ← threeLinkWalk ld rd 0 0 1 (n + 1) ls1 rs1
+    let (_, rs2) ← threeLinkWalk ld rd 0 0 1 (n + 1) ls1 rs1
+    if rs2 ≠ 0 then abort (errAsym ld rd) else
     pure ()
+  else if rs ≠ rd then abort (errAsym ld rd)
   else pure ()
 
 /-- one direction of the walk of `three_unlink`.  `again` = the backward loop re-reads
@@ -452,21 +455,21 @@ def threeUnsewLoop (cfg : Cfg X) (n : Nat) : List (Nat × Nat) → P X Unit
   | (l, r) :: rest => do
       let el ← edgeId3 n l
       let er ← edgeId3 n r
-      splitAttrs cfg 1 el er (max el er)
+      splitAttrs cfg 1 el er (min el er)
       let b1l ← rB 1 l
       let b2l ← rB 2 l
       let v1 ← vertexId3 n (if b1l = 0 then b2l else b1l)
       let v2 ← vertexId3 n r
-      splitS cfg 0 v1 v2 (max v1 v2)
-      splitAttrs cfg 0 v1 v2 (max v1 v2)
+      splitS cfg 0 v1 v2 (min v1 v2)
+      splitAttrs cfg 0 v1 v2 (min v1 v2)
       let b0l ← rB 0 l
       if b0l = 0 then do
         let b1r ← rB 1 r
         let b2r ← rB 2 r
         let v3 ← vertexId3 n l
         let v4 ← vertexId3 n (if b1r = 0 then b2r else b1r)
-        splitS cfg 0 v3 v4 (max v3 v4)
-        splitAttrs cfg 0 v3 v4 (max v3 v4)
+        splitS cfg 0 v3 v4 (min v3 v4)
+        splitAttrs cfg 0 v3 v4 (min v3 v4)
         threeUnsewLoop cfg n rest
       else threeUnsewLoop cfg n rest
 
@@ -477,7 +480,7 @@ def threeUnsew3 (cfg : Cfg X) (n ld : Nat) : P X Unit := do
   let (lo, ro) ← faceOrbits3 n ld rd
   let lface := listMin lo ld
   let rface := listMin ro rd
-  splitAttrs cfg 2 lface rface (max lface rface)
+  splitAttrs cfg 2 lface rface (min lface rface)
   threeUnsewLoop cfg n (lo.zip ro)
 
 /-! ## iterators (non-transactional: one `atomically` per id computation) -/
